@@ -611,9 +611,18 @@ func (r *RegisteredDecoys) track(d *DecoyRegistration) error {
 		regID:            d.IDString(),
 		status:           regStatusUnused,
 	}
-	r.decoysTimeouts[d.IDString()+phantomAddr] = newTimeout
+	r.decoysTimeouts[timeoutKey(phantomAddr, identifier)] = newTimeout
 
 	return nil
+}
+
+// timeoutKey returns the index of a registration's record in decoysTimeouts. It is made of the
+// same (phantom, identifier) pair that indexes the registration in decoys, so every tracked
+// registration owns exactly one timeout record. (Indexing by the shortened registration ID let
+// registrations that share a secret but use different transports overwrite each other's record,
+// after which the earlier one was never expired.) The phantom address never contains the separator.
+func timeoutKey(phantomAddr, identifier string) string {
+	return phantomAddr + "|" + identifier
 }
 
 func (r *RegisteredDecoys) register(darkDecoyAddr string, d *DecoyRegistration) error {
@@ -652,8 +661,13 @@ func (r *RegisteredDecoys) markActive(d *DecoyRegistration) {
 	r.m.Lock()
 	defer r.m.Unlock()
 
+	t, ok := r.transports[d.Transport]
+	if !ok {
+		return
+	}
+
 	phantomAddr := d.PhantomIp.String()
-	if regTimeout, ok := r.decoysTimeouts[d.IDString()+phantomAddr]; ok {
+	if regTimeout, ok := r.decoysTimeouts[timeoutKey(phantomAddr, t.GetIdentifier(d))]; ok {
 		regTimeout.status = regStatusUsed
 
 		// Since we update the applicable timeout here, we should update that
